@@ -278,7 +278,7 @@ func (g *Gen) load(patterns []string) error {
 		return fmt.Errorf("%d package load errors", nerr)
 	}
 	t1 := time.Now()
-	prog, _ := ssautil.AllPackages(pkgs, ssa.InstantiateGenerics)
+	prog, _ := ssautil.AllPackages(pkgs, ssa.InstantiateGenerics|ssa.GlobalDebug)
 	// build SSA bodies only for repository packages and the few dependencies whose leaf functions are inlined;
 	// other packages are built on demand (ensureBuilt)
 	for _, p := range prog.AllPackages() {
@@ -395,6 +395,19 @@ func (g *Gen) verifyFunc(ct *Contract) (fg *FnGen, err error) {
 		bad := false
 		for _, rs := range fr.rets {
 			penv := fg.baseEnv(fr, rs.state)
+			for ln, lv := range rs.locals {
+				if _, taken := penv.vars[ln]; !taken {
+					penv.vars[ln] = lv // source-level local variable at this return site
+				}
+			}
+			// locals not yet assigned on the way to this return site: arbitrary values
+			for _, bl := range fr.locals {
+				for ln, lv := range bl {
+					if _, taken := penv.vars[ln]; !taken && lv.T != nil {
+						penv.vars[ln] = CVal{T: Const("unassigned:"+ln, lv.T.Sort), Ty: lv.Ty}
+					}
+				}
+			}
 			for i, rn := range ct.Results {
 				if i < len(rs.results) {
 					penv.vars[rn] = CVal{T: rs.results[i], Ty: fn.Signature.Results().At(i).Type()}
@@ -778,6 +791,10 @@ func (g *Gen) solveObligation(o *Obligation, workdir string, timeoutS int, all b
 			r2 := Solve(ScriptD(qf, vals, defsUsed(o.fg.defsOrNil(), qf)), workdir, o.Name+"__qf", timeoutS, all)
 			if r2.Status == "unsat" {
 				r2.Solver += "(qf-assumptions)"
+				r = r2
+			} else if r2.Status == "sat" {
+				// a model of the relaxed query is only a candidate counterexample: replay on the real code decides
+				r2.Solver += "(candidate model from the quantifier-free relaxation)"
 				r = r2
 			}
 		}
